@@ -29,7 +29,7 @@ META = {
     "design_ref": "DESIGN.md section 4, C04",
 }
 
-ALL_KINDS = ["msg", "namew", "rdw", "optw", "optm", "namet", "rdt", "rdg", "ttl", "zone", "msgt"]
+ALL_KINDS = ["msg", "namew", "rdw", "optw", "optm", "namet", "rdt", "rdg", "ttl", "zone", "zinc", "msgt"]
 GEN_CFG = """INIT Init
 NEXT Next
 VIEW View
@@ -62,6 +62,15 @@ def finish_job(job, table_by_key):
         job.update(cls=sp["cls"], type=sp["type"])
     if k in ("rdw", "optw") and "len" not in job:
         job["len"] = job.get("rdlen", job.get("olen"))
+    if "s" in job and job.get("src") == "spec":
+        # TLA+ strings are ASCII: {U+XXXX} in the specification's text stands for that code
+        # point.  senc / subenc keep what the specification wrote (InputBinding), s / sub are
+        # what the parsers get.
+        job["senc"] = job["s"]
+        job["s"] = _UNI.sub(lambda m: chr(int(m.group(1), 16)), job["s"])
+        if "sub" in job:
+            job["subenc"] = job["sub"]
+            job["sub"] = _UNI.sub(lambda m: chr(int(m.group(1), 16)), job["sub"])
     if "s" in job:
         job["ascii"] = 1 if all(ord(c) < 128 for c in job["s"]) else 0
         job["nl"] = job["s"].count("\n")
@@ -70,6 +79,9 @@ def finish_job(job, table_by_key):
 
 # a digit string beyond int()'s limit (4300 digits), or a $GENERATE width of 4+ digits
 _HUGE = re.compile(r"[0-9]{4301,}|\$\{[0-9]+,[0-9]{4,}")
+# a $ORIGIN directive whose argument does not end with a dot
+_REL_ORIGIN = re.compile(r"(^|\n)\$ORIGIN[ \t]+[^ \t\n]*[^. \t\n][ \t]*(\n|$)")
+_UNI = re.compile(r"\{U\+([0-9A-F]{4,6})\}")
 _BIG_ESC = re.compile(r"\\(2[5-9][0-9]|[3-9][0-9][0-9])")
 
 
@@ -103,6 +115,8 @@ def classify(tr, line, clause):
     if clause == "Render":
         which = "text:" + e.get("rtc", "-") if e.get("rt", ["ok"])[0] not in ("ok", "none") and "DNSException" not in e.get("rt", []) \
             else "wire:" + e.get("rwc", "-")
+        if op == "zone" and which == "text:KeyError" and e.get("opts", [0, 1])[1] == 0 and _REL_ORIGIN.search(tr.get("s", "")):
+            return "C04-relative-origin-without-origin:to_text:KeyError"
         if op == "msgt" and which == "wire:struct.error":
             return "C04-msgtext-value-out-of-range:struct.error-in-to_wire"
         if op == "zone" and which == "text:AssertionError" and e.get("opts", [0, 1])[1] == 0:
@@ -155,6 +169,7 @@ def run(ctx):
     by_key = {"rd": {r["key"]: r for r in table["rdata"]}, "opt": {o["key"]: o for o in table["options"]}}
     if ctx.replay_case:
         job = ctx.replay_case["case"]["job"]
+        job["wd"] = ctx.work
         jobs = [job]
     else:
         ctx.model("MC_Robustness", "MC_Robustness_quick.cfg" if quick else "MC_Robustness_thorough.cfg",
@@ -165,10 +180,12 @@ def run(ctx):
         bases = {}
         for i, b in enumerate(behs):
             job = dict(b)
-            job.update(tid="s%d" % i, src="spec", light=len(b["hist"]) >= 2)
+            job.update(tid="s%d" % i, src="spec", light=len(b["hist"]) >= 2, wd=ctx.work)
+            if b["kind"] == "zinc" and not b["hist"]:
+                continue  # not split yet: the same input as a plain zone
             jobs.append(finish_job(job, by_key))
             if not b["hist"] and b["kind"] in ("msg", "namew", "namet", "ttl", "zone", "msgt"):
-                bases.setdefault(b["kind"], []).append(b.get("w") or b.get("s"))
+                bases.setdefault(b["kind"], []).append(job.get("w") or job.get("s"))
         ctx.extra["spec_inputs"] = len(jobs)
         nrnd = 8000 if quick else 300000
         rnd = c04_robust.random_jobs(ctx.seed, nrnd, table, bases)
